@@ -912,7 +912,8 @@ theorem gl_sinv_of_kept {s : St} (hi : SInv s) {H : Heap} (w' : WFS { s with h :
   ⟨w', gl_recsOk_of_nonUserKept hi.recs hk, gl_fenceOk_of_kept hi w' hk hfo, gl_tailOk_of_kept hi w' hk,
     fun g hg e he hb h8 => by
       obtain ⟨y, hy, hya, hy8⟩ := hfo e he h8
-      exact hi.head g hg y hy (by omega) hy8⟩
+      exact hi.head g hg y hy (by omega) hy8,
+    hi.recin⟩
 
 /-! ### `FencesOld` from the three deltas -/
 
@@ -1173,10 +1174,22 @@ theorem gl_headOk_of_check {s : St} (h : gl_headOkB s = true) : HeadOk s := by
   · exact h hb
   · exact h h8
 
+def gl_recInB (s : St) : Bool :=
+  s.segs.all fun g => decide (g.recAt = 0) || (decide (g.base + 16 ≤ g.recAt) && decide (g.recAt < g.base + g.size))
+
+theorem gl_recIn_of_check {s : St} (h : gl_recInB s = true) : RecIn s := by
+  intro g hg hne
+  unfold gl_recInB at h
+  simp only [List.all_eq_true, Bool.or_eq_true, Bool.and_eq_true, decide_eq_true_eq] at h
+  rcases h g hg with h | h
+  · exact absurd h hne
+  · exact h
+
 theorem gl_inv_of_check {hs : Hist} (h1 : wfb hs = true) (h2 : gl_recsOkB hs.st = true)
-    (h3 : gl_fenceOkB hs.st = true) (h4 : gl_tailOkB hs.st = true) (h5 : gl_headOkB hs.st = true) : Inv hs :=
+    (h3 : gl_fenceOkB hs.st = true) (h4 : gl_tailOkB hs.st = true) (h5 : gl_headOkB hs.st = true)
+    (h6 : gl_recInB hs.st = true) : Inv hs :=
   ⟨⟨((wf_iff_wfs hs).1 h1).1, gl_recsOk_of_check h2, gl_fenceOk_of_check h3, gl_tailOk_of_check h4,
-    gl_headOk_of_check h5⟩, ((wf_iff_wfs hs).1 h1).2⟩
+    gl_headOk_of_check h5, gl_recIn_of_check h6⟩, ((wf_iff_wfs hs).1 h1).2⟩
 
 /-- two segments (the second `mmap` answer is not adjacent to the first segment, so `add_segment` pushed a
 segment record and three fenceposts into the old segment), two live blocks, one freed chunk -/
@@ -1195,6 +1208,6 @@ example : Inv glState ∧ glState.st.segs.length = 2 ∧
     (glState.st.h.ents.filter fun e => e.size = 8).length = 3 ∧
     (glState.st.h.ents.filter fun e => e.cin && isRecord glState.st.segs e).length = 1 ∧
     branchIs glState.st.h 48 "dv-split" = true :=
-  ⟨gl_inv_of_check (by decide) (by decide) (by decide) (by decide) (by decide), by decide, by decide, by decide, by decide⟩
+  ⟨gl_inv_of_check (by decide) (by decide) (by decide) (by decide) (by decide) (by decide), by decide, by decide, by decide, by decide⟩
 
 end TinyVerif.Dl
